@@ -180,7 +180,7 @@ theorem retryResp_text (n : Nat) (s : Str) (p : Port) (h : allAscii p.reads = tr
           refine ⟨f, p', ?_, hf, ha⟩
           rw [he]
           simp [arrived]
-        | raiseIO =>
+        | raise c =>
           simp only [readline]
           exact ⟨.io, ⟨rs, writes, log, nread + 1⟩, by simp [arrived], Or.inr rfl, allAscii_tail h⟩
     · have hl : (Val.str s).len ≠ 0 := by
@@ -208,7 +208,7 @@ theorem retryResp_skip (d n : Nat) (b : Bytes) (rest : List Rd) (writes : List W
     simp only [Val.len, List.length_nil, ne_eq, not_true_eq_false, ↓reduceIte, List.replicate_succ,
       List.cons_append, readline, decode, isAscii_nil]
     rw [ih m (nread + 1) (by omega)]
-    simp only [Prod.mk.injEq, Port.mk.injEq, true_and]
+    simp only [Prod.mk.injEq, Plotink.PyIO.Port.mk.injEq, true_and]
     omega
 
 theorem retryUnused_skip (d n : Nat) (b : Bytes) (rest : List Rd) (writes : List Wr) (log : List Bytes)
@@ -228,7 +228,7 @@ theorem retryUnused_skip (d n : Nat) (b : Bytes) (rest : List Rd) (writes : List
     simp only [List.length_nil, ne_eq, not_true_eq_false, ↓reduceIte, List.replicate_succ,
       List.cons_append, readline]
     rw [ih m (nread + 1) (by omega)]
-    simp only [Prod.mk.injEq, Port.mk.injEq, true_and]
+    simp only [Prod.mk.injEq, Plotink.PyIO.Port.mk.injEq, true_and]
     omega
 
 /-- first read followed by the decoding retry loop, on `d ≤ n` empties followed by a line -/
@@ -246,7 +246,7 @@ theorem firstRead_skip (d n : Nat) (b : Bytes) (rest : List Rd) (writes : List W
     refine ⟨[], ⟨List.replicate d .empty ++ .line b :: rest, writes, log, nread + 1⟩,
       by simp [readline, List.replicate_succ], [], by simp [decode, isAscii_nil], ?_⟩
     rw [retryResp_skip d n b rest writes log (nread + 1) hb ha (by omega)]
-    simp only [Prod.mk.injEq, Port.mk.injEq, true_and]
+    simp only [Prod.mk.injEq, Plotink.PyIO.Port.mk.injEq, true_and]
     omega
 
 /-- first read followed by the non-decoding retry loop (the trailing `OK`) -/
@@ -262,7 +262,7 @@ theorem firstUnused_skip (d n : Nat) (b : Bytes) (rest : List Rd) (writes : List
     refine ⟨[], ⟨List.replicate d .empty ++ .line b :: rest, writes, log, nread + 1⟩,
       by simp [readline, List.replicate_succ], ?_⟩
     rw [retryUnused_skip d n b rest writes log (nread + 1) hb (by omega)]
-    simp only [Prod.mk.injEq, Port.mk.injEq, true_and]
+    simp only [Prod.mk.injEq, Plotink.PyIO.Port.mk.injEq, true_and]
     omega
 
 /-! ### the write log of one call -/
@@ -394,7 +394,7 @@ theorem firstRead_text (n : Nat) (p : Port) (h : allAscii p.reads = true) :
     | empty =>
       right
       exact ⟨[], ⟨rs, writes, log, nread + 1⟩, [], rfl, rfl, allAscii_tail h, by simp [arrived]⟩
-    | raiseIO =>
+    | raise c =>
       left
       exact ⟨⟨rs, writes, log, nread + 1⟩, rfl, rfl, allAscii_tail h⟩
 
@@ -479,7 +479,7 @@ theorem write_okport (c : Bytes) (reads : List Rd) (writes : List Wr) (log : Lis
   | nil => rfl
   | cons w ws => cases w with
     | ok => rfl
-    | raiseIO => simp [firstWriteOk] at hw
+    | raise c => simp [firstWriteOk] at hw
 
 /-- ordinary query: `d1` empties, data line, `d2` empties, trailing line -/
 theorem query_reads_ordinary (P : Params) (c : Str) (d1 d2 : Nat) (data trail : Bytes) (rest : List Rd)
@@ -499,7 +499,7 @@ theorem query_reads_ordinary (P : Params) (c : Str) (d1 d2 : Nat) (data trail : 
   simp only [e1, e2, hdec, e3, hno, Bool.false_eq_true, ↓reduceIte]
   obtain ⟨u, p4, e4, e5⟩ := firstUnused_skip d2 P.retry trail rest writes.tail (log ++ [c]) (nread + d1 + 1) ht h2
   simp only [e4, e5, errIn]
-  simp only [Prod.mk.injEq, Port.mk.injEq, true_and]
+  simp only [Prod.mk.injEq, Plotink.PyIO.Port.mk.injEq, true_and]
   omega
 
 /-- query without trailing `OK`: `d1` empties, data line -/
@@ -655,7 +655,7 @@ theorem retryResp_bytes (n : Nat) (b : Bytes) (q : Port) :
 raises), and `'Err:' in response` raises `TypeError` -/
 theorem query_undecoded (P : Params) (hdec : P.decodeRetry = false) (hr : 1 ≤ P.retry) (c : Str)
     (hc : isAscii c = true) (r : Rd) (rest : List Rd) (writes : List Wr) (log : List Bytes) (nread : Nat)
-    (hw : firstWriteOk ⟨.empty :: r :: rest, writes, log, nread⟩ = true) (hne : r ≠ .raiseIO) :
+    (hw : firstWriteOk ⟨.empty :: r :: rest, writes, log, nread⟩ = true) (hne : ∀ c, r ≠ .raise c) :
     (query P c ⟨.empty :: r :: rest, writes, log, nread⟩).1 = .error .typeError := by
   obtain ⟨m, hm⟩ : ∃ m, P.retry = m + 1 := ⟨P.retry - 1, by omega⟩
   have h1 : readline ⟨.empty :: r :: rest, writes.tail, log ++ [c], nread⟩
@@ -663,7 +663,7 @@ theorem query_undecoded (P : Params) (hdec : P.decodeRetry = false) (hr : 1 ≤ 
   have h2 : ∃ b, readline ⟨r :: rest, writes.tail, log ++ [c], nread + 1⟩
       = (some b, ⟨rest, writes.tail, log ++ [c], nread + 1 + 1⟩) := by
     cases r with
-    | raiseIO => exact absurd rfl hne
+    | raise c => exact absurd rfl (hne c)
     | empty => exact ⟨[], rfl⟩
     | line b => exact ⟨b, rfl⟩
   obtain ⟨b, h2⟩ := h2
@@ -682,6 +682,62 @@ theorem query_undecoded (P : Params) (hdec : P.decodeRetry = false) (hr : 1 ≤ 
     rw [e2]
     rcases hf2 with rfl | rfl <;> rfl
   · rfl
+
+/-! ### one conforming exchange -/
+
+/-- a conforming exchange from an empty device queue with a write that succeeds: the expected value, the queue
+empty again, the request logged, one write outcome consumed -/
+theorem exch_step (P : Params) (hdec : P.decodeRetry = true) (e : Exch) (hce : e.Conforms P)
+    (writes : List Wr) (log : List Bytes) (nread : Nat) (hw : ∀ w ∈ writes, w = .ok) :
+    ∃ n', (if e.isQuery then query P e.cmd else command P e.cmd) ⟨[] ++ e.reply P, writes, log, nread⟩
+      = (e.expected, ⟨[], writes.tail, log ++ [e.cmd], n'⟩) := by
+  obtain ⟨hc, h1, hrest⟩ := hce
+  have hwok : ∀ reads, firstWriteOk ⟨reads, writes, log, nread⟩ = true := by
+    intro reads
+    unfold firstWriteOk
+    cases writes with
+    | nil => rfl
+    | cons w ws =>
+      have := hw w (List.mem_cons_self)
+      subst this; rfl
+  unfold Exch.reply Exch.expected
+  cases hq : e.isQuery
+  · simp only [hq, Bool.false_eq_true, ↓reduceIte] at hrest
+    simp only [Bool.false_eq_true, ↓reduceIte, List.nil_append]
+    exact ⟨_, command_reads P e.cmd e.d1 e.trail [] writes log nread hc h1 hrest.1 hrest.2 (hwok _)⟩
+  · simp only [hq, ↓reduceIte] at hrest
+    obtain ⟨hd, ha, hord⟩ := hrest
+    cases hno : P.noOK.contains (reqName e.cmd)
+    · obtain ⟨h2, ht⟩ := hord hno
+      simp only [↓reduceIte, Bool.false_eq_true, List.nil_append, List.append_assoc,
+        List.cons_append]
+      exact ⟨_, query_reads_ordinary P e.cmd e.d1 e.d2 e.data e.trail [] writes log nread hdec hc hno
+        h1 h2 hd ht ha (hwok _)⟩
+    · simp only [↓reduceIte, List.nil_append]
+      exact ⟨_, query_reads_noOK P e.cmd e.d1 e.data [] writes log nread hdec hc hno h1 hd ha (hwok _)⟩
+
+/-- the reply of a board contains no fault -/
+theorem reply_no_raise (P : Params) (e : Exch) (c : PyIO.ExcClass) : PyIO.Rd.raise c ∉ e.reply P := by
+  intro hm
+  have hrep : ∀ d, PyIO.Rd.raise c ∉ List.replicate d PyIO.Rd.empty := by
+    intro d h
+    exact absurd (List.eq_of_mem_replicate h) (by intro h; cases h)
+  unfold Exch.reply at hm
+  split at hm
+  · split at hm
+    · rcases List.mem_append.mp hm with h | h
+      · exact hrep _ h
+      · simp at h
+    · rcases List.mem_append.mp hm with h | h
+      · rcases List.mem_append.mp h with h | h
+        · exact hrep _ h
+        · simp at h
+      · rcases List.mem_append.mp h with h | h
+        · exact hrep _ h
+        · simp at h
+  · rcases List.mem_append.mp hm with h | h
+    · exact hrep _ h
+    · simp at h
 
 end C07
 end Plotink
